@@ -472,7 +472,49 @@ func parserCheck(file []byte, d *mux.Demuxer, s *shadow) (res string) {
 
 var unknownID = uint32(1313558101) // "UNKN"
 
+// realistic metadata shapes: what cameras / editors put into EXIF, XMP and ICCP chunks, and
+// blobs a reader might be tempted to interpret (leading FourCC, APP1 identifier, all zero)
+func (g *gen) shapedBlob() []byte {
+	tail := g.rng.Bytes(g.rng.Range(0, 24))
+	tiffLE := append([]byte("II*\x00\x08\x00\x00\x00"), tail...)
+	tiffBE := append([]byte("MM\x00*\x00\x00\x00\x08"), tail...)
+	switch g.rng.Intn(12) {
+	case 0:
+		return append([]byte("Exif\x00\x00"), tiffLE...)
+	case 1:
+		return append([]byte("Exif\x00\x00"), tiffBE...)
+	case 2:
+		return []byte("Exif\x00\x00") // the identifier alone
+	case 3:
+		return tiffLE
+	case 4:
+		return tiffBE
+	case 5:
+		return append([]byte("<?xpacket begin=\"\xef\xbb\xbf\" id=\"W5M0MpCehiHzreSzNTczkc9d\"?><x:xmpmeta xmlns:x=\"adobe:ns:meta/\">"), tail...)
+	case 6: // ICC profile header: size, CMM, version, class, colour space, PCS, date, "acsp" at offset 36
+		h := make([]byte, 128)
+		binary.BigEndian.PutUint32(h[0:], uint32(128+len(tail)))
+		copy(h[12:], "mntrRGB XYZ ")
+		copy(h[36:], "acsp")
+		return append(h, tail...)
+	case 7:
+		tags := []string{"VP8X", "ANMF", "RIFF", "EXIF", "ALPH", "VP8 ", "ANIM"}
+		return append([]byte(tags[g.rng.Intn(len(tags))]), tail...)
+	case 8:
+		return make([]byte, g.rng.Range(1, 33)) // all zero
+	case 9:
+		return []byte{byte(g.rng.U64())} // length 1
+	case 10:
+		return append([]byte("Exif\x00"), tail...) // near miss of the identifier
+	default:
+		return append(append([]byte{}, tail...), []byte("Exif\x00\x00II*\x00")...) // identifier not at the start
+	}
+}
+
 func (g *gen) blob() []byte {
+	if g.rng.Intn(3) == 0 {
+		return g.shapedBlob()
+	}
 	switch g.rng.Intn(8) {
 	case 0:
 		return nil
@@ -814,6 +856,93 @@ func okChecks(file []byte, dline string, dm *mux.Demuxer, sh *shadow, maskCanvas
 	return ""
 }
 
+// fileVariants: variants of an assembled VP8X file that differ in exactly one header bit.
+//  - each VP8X flag bit flipped (animation, XMP, EXIF, alpha, ICCP and the reserved bits 0, 6, 7):
+//    the demuxer (vs its model, correspondence) and container.Parser (GetFeatures) must agree:
+//    both reject, or the same canvas / animation flag / frame count;
+//  - reserved bits 2..7 of every ANMF flags byte set: readers must ignore them, the demuxer
+//    view must be exactly the view of the unmodified file.
+func fileVariants(c *Ctx, file []byte, dm *mux.Demuxer, replay map[string]any) {
+	if len(file) < 30 || string(file[12:16]) != "VP8X" {
+		return
+	}
+	rep := func(what string) map[string]any {
+		return map[string]any{"ops": replay["ops"], "class": replay["class"], "variant": what}
+	}
+	for bit := uint(0); bit < 8; bit++ {
+		v := append([]byte{}, file...)
+		v[20] ^= 1 << bit
+		line, vd := muxh.DemuxLine(v)
+		c.Case("demux "+hex.EncodeToString(v), line)
+		c.Count("variant-vp8x-flag")
+		if line == "panic" {
+			c.Violate("variant-demux-panics", fmt.Sprintf("demuxer panics with VP8X flag bit %d flipped", bit), rep(fmt.Sprintf("vp8x flag bit %d", bit)))
+			continue
+		}
+		if bit == 0 || bit >= 6 {
+			// reserved bits: container.Parser rejects them ("invalid feature flags") while the demuxer
+			// ignores them as the specification asks of readers — a known difference of the two parsers
+			// (reported; C16/C17 territory).  Only the demuxer-vs-model correspondence runs here.
+			c.Count("variant-vp8x-reserved-bit")
+			continue
+		}
+		ft, perr := func() (f *webp.Features, err error) {
+			defer func() {
+				if r := recover(); r != nil {
+					err = fmt.Errorf("panic: %v", r)
+				}
+			}()
+			return webp.GetFeatures(bytes.NewReader(v))
+		}()
+		switch {
+		case vd == nil && perr != nil:
+			c.Count("variant-both-reject")
+		case vd != nil && perr == nil:
+			df := vd.GetFeatures()
+			if ft.Width != df.Width || ft.Height != df.Height || ft.HasAnimation != df.HasAnimation || ft.FrameCount != vd.NumFrames() {
+				c.Violate(fmt.Sprintf("variant-parsers-disagree:bit%d:views", bit), fmt.Sprintf("VP8X flag bit %d flipped: GetFeatures %+v vs demuxer %+v frames=%d", bit, *ft, df, vd.NumFrames()),
+					rep(fmt.Sprintf("vp8x flag bit %d", bit)))
+			} else {
+				c.Count("variant-both-accept")
+			}
+		default:
+			c.Violate(fmt.Sprintf("variant-parsers-disagree:bit%d:demux-ok=%v", bit, vd != nil), fmt.Sprintf("VP8X flag bit %d flipped: demuxer ok=%v, GetFeatures err=%v", bit, vd != nil, perr),
+				rep(fmt.Sprintf("vp8x flag bit %d", bit)))
+		}
+	}
+	// ANMF flags bytes
+	cs, ok := muxh.WalkFile(file)
+	if !ok {
+		return
+	}
+	off := 12
+	var flagOffs []int
+	for _, ch := range cs {
+		if ch.ID == "ANMF" && len(ch.Data) >= 16 {
+			flagOffs = append(flagOffs, off+8+15)
+		}
+		off += 8 + len(ch.Data) + len(ch.Data)%2
+	}
+	if len(flagOffs) == 0 {
+		return
+	}
+	want := demuxView(dm)
+	for _, mask := range []byte{0x04, 0x80, 0xfc} {
+		v := append([]byte{}, file...)
+		for _, o := range flagOffs {
+			v[o] |= mask
+		}
+		line, vd := muxh.DemuxLine(v)
+		c.Case("demux "+hex.EncodeToString(v), line)
+		c.Count("variant-anmf-reserved")
+		if vd == nil {
+			c.Violate("variant-anmf-reserved-bits", fmt.Sprintf("demuxer %s when reserved ANMF flag bits %#x are set", line, mask), rep(fmt.Sprintf("anmf reserved %#x", mask)))
+		} else if got := demuxView(vd); got != want {
+			c.Violate("variant-anmf-reserved-bits", fmt.Sprintf("reserved ANMF flag bits %#x change the view: got %s want %s", mask, got, want), rep(fmt.Sprintf("anmf reserved %#x", mask)))
+		}
+	}
+}
+
 // frameLimit: 9999 / 10000 / 10001 AddFrame calls with a tiny frame.  What AddFrame accepts must
 // assemble and come back from both parsers with that many frames; the frame beyond MaxFrames
 // (10000, the limit of both parsers) must be refused with an error.
@@ -1002,6 +1131,9 @@ func evalCase(c *Ctx, ops []op, kind string) {
 	layout := "simple"
 	if string(file[12:16]) == "VP8X" {
 		layout = "ext"
+	}
+	if layout == "ext" {
+		fileVariants(c, file, dm, replay)
 	}
 	sig := fmt.Sprintf("%s-%s-n%d-m%d%d%d", cls, layout, len(sh.frames), muxh.B2i(sh.icc != nil), muxh.B2i(sh.exif != nil), muxh.B2i(sh.xmp != nil))
 	for _, f := range sh.frames {
